@@ -21,15 +21,16 @@ import (
 type Op struct {
 	Op     string   `json:"op"`
 	Client string   `json:"client"`
-	Auth   string   `json:"auth"`   // "ok" | "bad" | "none"
-	RType  string   `json:"rtype"`  // authorize: response type combination
-	Scopes []string `json:"scopes"` // requested scopes
-	Grant  []string `json:"grant"`  // scopes the resource owner grants
-	GAud   []string `json:"gaud"`   // audiences the resource owner grants (["*"] = all requested ones)
-	Aud    []string `json:"aud"`    // requested (= granted) audience
-	Redir  string   `json:"redir"`  // authorize: "sent"|"omit"; redeem: "same"|"absent"|"diff"|"enc"
-	Pkce   string   `json:"pkce"`   // authorize: "none"|"S256"|"plain"|"plain_nm"|"plain_short"
-	Ver    string   `json:"ver"`    // redeem: "none"|"right"|"wrong"|"short"|"long"|"illegal"|"other"
+	Auth   string   `json:"auth"`          // "ok" | "bad" | "none"
+	RType  string   `json:"rtype"`         // authorize: response type combination
+	Scopes []string `json:"scopes"`        // requested scopes
+	Grant  []string `json:"grant"`         // scopes the resource owner grants
+	GAud   []string `json:"gaud"`          // audiences the resource owner grants (["*"] = all requested ones)
+	Aud    []string `json:"aud"`           // requested (= granted) audience
+	Redir  string   `json:"redir"`         // authorize: "sent"|"omit"; redeem: "same"|"absent"|"diff"|"enc"
+	Pkce   string   `json:"pkce"`          // authorize: "none"|"S256"|"plain"|"plain_nm"|"plain_short"
+	Ill    string   `json:"ill,omitempty"` // authorize with pkce *_ill: which reserved character the verifier contains
+	Ver    string   `json:"ver"`           // redeem: "none"|"right"|"wrong"|"short"|"long"|"illegal"|"other"
 	Code   int      `json:"code"`
 	Tok    int      `json:"tok"`
 	Kind   string   `json:"kind"` // "at"|"rt"|"unk"
@@ -85,6 +86,19 @@ func (w *World) setAuth(r *http.Request, form url.Values, client, auth string) {
 		if !public {
 			form.Set("client_secret", ClientSecrets[client])
 		}
+	case "assertion": // private_key_jwt (client J): a fresh signed assertion in the body
+		_, _, k2 := Keys()
+		now := time.Now()
+		w.mu.Lock()
+		w.assertionSeq++
+		jti := fmt.Sprintf("jti-auth-%d", w.assertionSeq)
+		w.mu.Unlock()
+		a := signJWT("RS256", k2, "kid-j", map[string]interface{}{"iss": client, "sub": client, "aud": TokenURL, "exp": now.Add(Tick).Unix(), "iat": now.Unix(), "jti": jti})
+		w.mu.Lock()
+		w.Assertions = append(w.Assertions, a)
+		w.mu.Unlock()
+		form.Set("client_assertion_type", "urn:ietf:params:oauth:client-assertion-type:jwt-bearer")
+		form.Set("client_assertion", a)
 	case "bad":
 		r.SetBasicAuth(url.QueryEscape(client), url.QueryEscape("not-the-secret"))
 	case "other": // another client's secret
@@ -148,6 +162,8 @@ func (w *World) tok(kind string, id int) string {
 }
 
 func (w *World) count(kind string) int { return len(w.Rec.Keys(kind)) }
+
+var illChars = map[string]string{"bang": "!", "bracket": "[", "caret": "^", "backtick": "`", "backslash": "\\", "space": " ", "plus": "+"}
 
 func verifierFor(id int, variant string) string {
 	return verifierVariant(fmt.Sprintf("verifier-%03d-abcdefghijklmnopqrstuvwxyz-0123456789", id), variant) // 50 chars
@@ -264,6 +280,15 @@ func (w *World) doAuthorize(p int, op Op) Obs {
 	case "plain_short": // a malformed challenge: the verifier variant "short" is byte-equal to it
 		q.Set("code_challenge", ver[:42])
 		q.Set("code_challenge_method", "plain")
+	case "S256_ill", "plain_ill": // the client's verifier contains a character outside the unreserved set
+		ver = ver[:30] + illChars[op.Ill] + ver[31:]
+		if op.Pkce == "S256_ill" {
+			q.Set("code_challenge", s256(ver))
+			q.Set("code_challenge_method", "S256")
+		} else {
+			q.Set("code_challenge", ver)
+			q.Set("code_challenge_method", "plain")
+		}
 	}
 	o = w.finishAuthorize(p, op, q, o)
 	if id := o.New["code"]; id > 0 {
@@ -352,7 +377,7 @@ func (w *World) tokenCall(p int, r *http.Request, grantAllRequested bool) (Obs, 
 	o := newObs()
 	ctx := w.ctx(p)
 	rec := httptest.NewRecorder()
-	ar, err := w.Provider.NewAccessRequest(ctx, r, w.sess(protoSubject(r)))
+	ar, err := w.Provider.NewAccessRequest(ctx, r, w.tokenSess(protoSubject(r)))
 	if err != nil {
 		o.Res = errName(err)
 		w.Provider.WriteAccessError(ctx, rec, ar, err)
@@ -576,7 +601,11 @@ func (w *World) doIntrospect(p int, op Op) Obs {
 
 func (w *World) doClientChange(p int, op Op) Obs {
 	o := newObs()
-	c := w.Mem.Clients[op.Client].(*fosite.DefaultClient)
+	// a registration update stores a NEW client record, as every store that serialises clients does: requests stored
+	// earlier keep (a pointer to) the old record
+	nc := *w.Mem.Clients[op.Client].(*fosite.DefaultClient)
+	c := &nc
+	w.Mem.Clients[op.Client] = c
 	rm := func(l []string, v string) []string {
 		out := []string{}
 		for _, x := range l {
